@@ -200,6 +200,10 @@ func (i *interpreter) sprintf(fr *frame, format string, args []value) string {
 				b := i.x.decide(s)
 				nf.WriteString(spec)
 				nat = append(nat, b)
+			case i.inStage2(fr):
+				// emitted code formatting a document value into an error message: no hole
+				nf.WriteString("%s")
+				nat = append(nat, "‹num›")
 			default:
 				if len(spec) != 2 {
 					panic(unsupported("format flags on a symbolic number: " + spec))
@@ -430,4 +434,20 @@ func valueLess(a, b value) bool {
 		return x < b.(float64)
 	}
 	return fmt.Sprint(a) < fmt.Sprint(b)
+}
+
+// inStage2 reports whether the formatting call comes from emitted (stage-2) code.
+func (i *interpreter) inStage2(fr *frame) bool {
+	for f := fr; f != nil; f = f.caller {
+		if f.fn != nil && f.fn.Pkg != nil && strings.HasPrefix(f.fn.Pkg.Pkg.Path(), "zzgen/") {
+			return true
+		}
+	}
+	for k := len(i.callStack) - 1; k >= 0; k-- {
+		fn := i.callStack[k]
+		if fn.Pkg != nil {
+			return strings.HasPrefix(fn.Pkg.Pkg.Path(), "zzgen/")
+		}
+	}
+	return false
 }
